@@ -158,6 +158,25 @@ pub fn c11_specs(tier: Tier) -> Vec<Spec> {
         specs.push(Spec::new(true, vec![Pat::regex("(?&t)x")]).with_sub("t", "(?&s)c").with_sub("s", b));
         specs.push(Spec::new(true, vec![Pat::skip("(?&nope)"), Pat::token("q")]).with_sub("s", b));
     }
+    // Unicode mode is the SUBPATTERN's own: str bodies whose meaning depends on it, referenced from
+    // byte-string patterns / from inside (?-u:...), and byte-string bodies referenced from str patterns
+    for body in [".", "[^a]", "\\w", "(?i)k", "é", "\\s", "[a-zé]"] {
+        for user in ["x(?&s)y", "(?&s)+z", "(?&s)"] {
+            specs.push(Spec::new(false, vec![Pat::bregex(user.as_bytes())]).with_sub("s", body));
+            specs.push(Spec::new(false, vec![Pat::bregex(user.as_bytes()), Pat::bregex(b"[\x80-\xff]").prio(1)]).with_sub("s", body));
+            specs.push(Spec::new(false, vec![Pat::regex(&format!("(?-u:{user})"))]).with_sub("s", body));
+            specs.push(Spec::new(true, vec![Pat::regex(&format!("(?-u:{user})"))]).with_sub("s", body));
+            // nested through a byte-string subpattern
+            specs.push(Spec::new(false, vec![Pat::regex("q(?&t)")]).with_sub("s", body).with_bsub("t", user.as_bytes()));
+        }
+    }
+    for body in [&b"."[..], b"[^a]", b"\\w", b"(?i)k", b"\\s"] {
+        for user in ["x(?&s)y", "(?&s)+z", "(?&s)"] {
+            specs.push(Spec::new(false, vec![Pat::regex(user)]).with_bsub("s", body));
+            specs.push(Spec::new(true, vec![Pat::regex(user)]).with_bsub("s", body));
+            specs.push(Spec::new(false, vec![Pat::regex(user), Pat::regex("é+").prio(1)]).with_bsub("s", body));
+        }
+    }
     // byte-string subpatterns
     for (body, user) in [(&b"\xff"[..], "a(?&s)"), (b"[\x80-\xbf]", "(?&s)+"), (b"a|\xfe", "x(?&s)y"), (b".", "(?&s)z")] {
         specs.push(Spec::new(false, vec![Pat::regex(user)]).with_bsub("s", body));
@@ -264,6 +283,7 @@ pub fn replay(a: &Args) -> Report {
             rep.counts = tmp.counts;
         }
         "c16" | "c18" | "c19" | "tokens" => return crate::tokenlevel::replay(a, &rec),
+        "c17" => return crate::cli::replay(a, &rec),
         k => panic!("unknown replay kind {k}"),
     }
     rep
